@@ -6,6 +6,7 @@ from vlib import hexs
 from props import sess_common as sc
 
 PROP_FILES = ["Props/C05.v"]
+FILL_TAG = "fill0_".encode().hex()        # names are hex-encoded in script lines
 
 def fill_cycle_session(rng, conf, cycles):
     label, size, fmt = conf
@@ -139,6 +140,18 @@ def run(rep, tier, seed):
             else:
                 for k in range(1 if tier == "quick" else 6):
                     scripts.append(fill_cycle_session(rng, conf, 2))
+    # maximal-size FAT12/16 volumes with only the last clusters free: fill / delete cycles through the top cluster numbers
+    for bits in (12, 16):
+        t = sessions.topfree_volume(bits, keep=14)
+        if t is not None:
+            label, head, cs, keep = t
+            for k in range(1 if tier == "quick" else 6):
+                lines = ["stats"]
+                for c in range(3):
+                    lines += ["create_file 0 %s 1" % hexs("fill0_%d.bin" % c), "write_pat 1 %d %d" % (keep * cs + 5, c), "drop_file 1", "stats",
+                              "create_file 0 %s 2" % hexs("fill0_more%d.bin" % c), "write_pat 2 %d %d" % (cs, c), "drop_file 2", "stats",
+                              "remove 0 %s" % hexs("fill0_%d.bin" % c), "stats", "remove 0 %s" % hexs("fill0_more%d.bin" % c), "stats"]
+                scripts.append(head + lines + ["drop_all", "unmount", "mount 1 0 lossy", "stats", "unmount"])
     judged = sessions.run_judged(scripts, flags=("infos",), shards=16)
     nstats = 0; nnospace = 0; nunmount32 = 0; ncreate_nospace = 0
     for jd in judged:
@@ -192,7 +205,7 @@ def run(rep, tier, seed):
                                   {"script": sc.script_prefix(jd, oi)})
                     break
         # full reclamation: after everything was removed the free count is back to the initial one
-        if ok and f.stop_at is None and any("fill0_" in l for l in jd.script):
+        if ok and f.stop_at is None and any(FILL_TAG in l for l in jd.script):
             st = [o for o in jd.ops if sc.opname(o) == "stats" and o.kind == "ok"]
             if len(st) >= 2 and initial_free is not None:
                 last_free = int(st[-1].payload.split(" ")[2])
